@@ -740,7 +740,7 @@ class Folder:
                 r0 = self.repo.resolve_expr(self.mod, e.func, self.cls)
             except Exception:
                 r0 = None
-            if isinstance(r0, External) and r0.dotted.split(".")[0] in ("itertools", "functools", "math", "collections", "fractions", "typing", "struct", "operator"):
+            if isinstance(r0, External) and r0.dotted.split(".")[0] in ("itertools", "functools", "math", "collections", "fractions", "typing", "struct", "operator", "unicodedata", "re"):
                 name = r0.dotted  # `from itertools import product` -> itertools.product
         args = e.args
         if name is not None and name.endswith(".__init__") and name.split(".")[0] not in self.env and isinstance(getattr(__import__("builtins"), name.split(".")[0], None), type) and name.count(".") == 1:
@@ -1121,6 +1121,13 @@ class Folder:
         if name in ("itertools.repeat",) and len(args) == 1:
             v_ = self.fold(args[0])
             return _Repeat(v_)
+        if name == "unicodedata.normalize" and len(args) == 2 and not e.keywords:
+            form_, text_ = self.fold(args[0]), self.fold(args[1])
+            if isinstance(form_, str) and isinstance(text_, str) and not isinstance(text_, Abstract) and form_ in ("NFC", "NFD", "NFKC", "NFKD"):
+                import unicodedata as _ud
+
+                return _ud.normalize(form_, text_)  # a pure function of a concrete text
+            raise Unfoldable(unparse(e))
         if name in ("re.compile", "re.match", "re.fullmatch", "re.search") and args and not e.keywords:
             vals_r = [self.fold(a) for a in args]
             if all(isinstance(v_, (str, int)) and not isinstance(v_, Abstract) for v_ in vals_r) and isinstance(vals_r[0], str):
